@@ -336,6 +336,35 @@ def check_tokenlist_caller():
     return viols
 
 
+def check_returned_list_history():
+    """History: the caller edits the list list_tokens() handed out, then asks again (also through a fresh parser): the second
+    answer must again be the name tokens of the expression."""
+    from sfc_models.utils import list_tokens
+    viols = []
+    for expr in ('alpha*LAG_F + max(beta, k) - alpha', 'x + y*x', 'w("a")*a'):
+        case = {'kind': 'returned-list-history', 'expr': expr}
+        want = [t for t in scan(expr) if NAME_RE.match(t)]
+        first = list_tokens(expr)
+        first.sort()
+        del first[:1]
+        second = [t for t in list_tokens(expr) if NAME_RE.match(t)]
+        if second != want:
+            viols.append(core.violation('list_tokens:answer-depends-on-what-the-caller-did-with-an-earlier-answer',
+                                        'list_tokens(%r) after the caller sorted and shortened the first answer: %r, expected %r' % (expr, second, want), case))
+            continue
+        p1 = EquationParser()
+        p1.ParseString('y = %s\nMaxTime = 1' % expr)
+        p1.GenerateTokenList()
+        del p1.Tokens['y'][:]
+        p2 = EquationParser()
+        p2.ParseString('y = %s\nMaxTime = 1' % expr)
+        p2.GenerateTokenList()
+        got = [t for t in p2.Tokens['y'] if NAME_RE.match(t)]
+        if got != want:
+            viols.append(core.violation('caller:parser-token-list-shared-between-parsers', 'a fresh parser lists %r for %r after another parser\'s list was emptied' % (got, expr), case))
+    return viols
+
+
 def check_model_alias_caller():
     """Placeholders in model-level strings (Model._ReplaceAliasesInString, named by the property's callers through the alias fix-up):
     every placeholder occurrence is replaced whatever stands next to it, nothing else changes."""
@@ -454,7 +483,8 @@ def run_unit(unit, tier):
         res['nontrivial'] += len(REDUCTION_EXPRS)
         core.bump(res['outcomes'], 'reduction-caller:' + ('ok' if not viols else 'violation'))
         res['violations'].extend(viols)
-        for fn, n, lab in ((check_tokenlist_caller, len(TOKENLIST_EXPRS), 'tokenlist-caller'), (check_model_alias_caller, 8, 'model-alias-caller')):
+        for fn, n, lab in ((check_tokenlist_caller, len(TOKENLIST_EXPRS), 'tokenlist-caller'), (check_model_alias_caller, 8, 'model-alias-caller'),
+                           (check_returned_list_history, 3, 'returned-list-history')):
             viols = fn()
             res['evaluations'] += n
             res['nontrivial'] += n
@@ -504,6 +534,8 @@ def run_unit(unit, tier):
 def replay(case):
     if case['kind'] == 'qualification-caller':
         return [v for v in check_qualification_caller() if v['case']['row'] == case['row']][:1]
+    if case['kind'] == 'returned-list-history':
+        return [v for v in check_returned_list_history() if v['case']['expr'] == case['expr']][:1]
     if case['kind'] == 'tokenlist-caller':
         return [v for v in check_tokenlist_caller() if v['case']['expr'] == case['expr']][:1]
     if case['kind'] == 'model-alias-caller':
